@@ -388,21 +388,59 @@ Definition sgcase_spec (c : sgcase) : bool :=
   else (sg_cls c =? 0) && negb (sg_xmlsig c) && negb (sg_redirsig c).
 Definition check_sgcases := check_cases sgcase_agree sgcase_spec.
 
-(* metadata case (C13): sp.Metadata() advertises the signing certificate
-   (KeyDescriptor use="signing") iff a certificate is configured and a method is
-   set, and AuthnRequestsSigned iff a method is set *)
-Definition md_advertises (has_cert : bool) (method : string) : bool * bool :=
-  (has_cert && nonempty method, nonempty method).
+(* ---------- ServiceProvider.Metadata: the key descriptors ---------- *)
+(* cert: base64 DER of sp.Certificate (None = no certificate configured);
+   inters: base64 DER of each of sp.Intermediates, in order; rsa_cert: the
+   certificate's public key is RSA.  One X509Certificate element per
+   certificate, the SP's own first.  Result: (use, certificates) per KeyDescriptor. *)
+Definition sp_key_descriptors (cert : option string) (inters : list string) (rsa_cert : bool) (method : string)
+  : list (string * list string) :=
+  match cert with
+  | None => []
+  | Some c =>
+      let certs := c :: inters in
+      ((if rsa_cert then [("encryption", certs)] else [])
+       ++ (if nonempty method then [("signing", certs)] else []))%list
+  end.
+
+(* AuthnRequestsSigned *)
+Definition sp_authn_requests_signed (method : string) : bool := nonempty method.
+
+(* the certificates of the first descriptor with the given use *)
+Fixpoint kd_certs_of (use : string) (kds : list (string * list string)) : option (list string) :=
+  match kds with
+  | [] => None
+  | (u, cs) :: r => if seqb u use then Some cs else kd_certs_of use r
+  end.
+
+(* metadata case (C13): configuration, and what the published metadata XML
+   contains: the key descriptors, AuthnRequestsSigned, and whether the FIRST
+   X509Certificate of the signing descriptor parses (x509) to the SP certificate *)
 Record mdcase := {
-  md_has_cert : bool; md_method : string;
-  md_signing_kd : bool; md_authn_signed : bool; md_cert_matches : bool }.
+  md_cert : option string; md_inters : list string; md_rsa : bool; md_method : string;
+  md_kds : list (string * list string); md_authn_signed : bool; md_first_is_sp_cert : bool }.
+Fixpoint kds_eqb (a b : list (string * list string)) : bool :=
+  match a, b with
+  | [], [] => true
+  | (u, cs) :: a', (u', cs') :: b' => seqb u u' && strs_eqb cs cs' && kds_eqb a' b'
+  | _, _ => false
+  end.
 Definition mdcase_agree (c : mdcase) : bool :=
-  let '(kd, asg) := md_advertises (md_has_cert c) (md_method c) in
-  Bool.eqb kd (md_signing_kd c) && Bool.eqb asg (md_authn_signed c).
+  kds_eqb (sp_key_descriptors (md_cert c) (md_inters c) (md_rsa c) (md_method c)) (md_kds c)
+  && Bool.eqb (sp_authn_requests_signed (md_method c)) (md_authn_signed c).
 (* with signing configured and a certificate present, the published metadata
-   carries exactly that certificate for signing and announces signed requests *)
+   has a signing descriptor whose first certificate is the SP's certificate
+   (and parses as such), and announces signed requests *)
 Definition mdcase_spec (c : mdcase) : bool :=
-  if nonempty (md_method c) && md_has_cert c
-  then md_signing_kd c && md_authn_signed c && md_cert_matches c
-  else true.
+  match md_cert c with
+  | Some cert =>
+      if nonempty (md_method c)
+      then md_authn_signed c && md_first_is_sp_cert c
+           && match kd_certs_of "signing" (md_kds c) with
+              | Some (first :: _) => seqb first cert
+              | _ => false
+              end
+      else true
+  | None => true
+  end.
 Definition check_mdcases := check_cases mdcase_agree mdcase_spec.
